@@ -478,7 +478,7 @@ void end() {
     tls_task = -1;
 }
 
-int spawn(TaskFn fn, void* arg) {
+int spawn(TaskFn fn, void* arg, size_t stack_bytes) {
     State& g = *G;
     if ((int)g.tasks.size() >= MAX_TASKS) { fprintf(stderr, "simcore: too many tasks\n"); _exit(98); }
     Task* t = new Task();
@@ -488,7 +488,7 @@ int spawn(TaskFn fn, void* arg) {
     g.tasks.push_back(t);
     g.st.tasks = (int)g.tasks.size();
     int saved = tls_in_sut; tls_in_sut = 0;
-    pthread_attr_t at; pthread_attr_init(&at); pthread_attr_setstacksize(&at, g.cfg.task_stack_bytes);
+    pthread_attr_t at; pthread_attr_init(&at); pthread_attr_setstacksize(&at, stack_bytes ? stack_bytes : g.cfg.task_stack_bytes);
     int rc = __real_pthread_create(&t->th, &at, trampoline, t);
     pthread_attr_destroy(&at);
     tls_in_sut = saved;
@@ -628,7 +628,17 @@ int __wrap_pthread_create(pthread_t* th, const pthread_attr_t* attr, void* (*fn)
     if (g.cfg.thread_create_faults) {
         if (decide_p(2, g.cfg.thread_create_fail_prob)) { count_fault(F_THREAD_CREATE_FAIL); log_event("thread_create_fail"); return EAGAIN; }
     }
-    int id = spawn(fn, arg);
+    size_t want = 0;
+    if (attr) {   // the stack the code asks for is part of its behaviour (a smaller stack than the default makes deep recursion a crash)
+        size_t ss = 0; pthread_attr_t dflt; size_t ds = 0;
+        pthread_attr_init(&dflt); pthread_attr_getstacksize(&dflt, &ds); pthread_attr_destroy(&dflt);
+        if (pthread_attr_getstacksize(attr, &ss) == 0 && ss != 0 && ss != ds) {
+            want = ss * g.cfg.attr_stack_scale;
+            if (want < (256u << 10)) want = 256u << 10;
+            if (want > ((size_t)1 << 30)) want = (size_t)1 << 30;
+        }
+    }
+    int id = spawn(fn, arg, want);
     *th = (pthread_t)(uintptr_t)(0x51D00000u + (unsigned)id);
     schedule(Y_SPAWN, (uint64_t)id);
     return 0;
